@@ -1,23 +1,9 @@
-HOOK_COMMITS = []
+import os, sys
+sys.path.insert(0, os.path.dirname(os.path.abspath(__file__)))
+import props
+HOOK_COMMITS = ["9850a25", "e674b3d"]
 NOTES = ("Every check: rebuilds the Coq development (make), rebuilds the harness against /repo's working tree with -tags verif, "
          "runs the implementation on generated inputs, evaluates the extracted Coq model and the specification predicates on every case. "
          "See DESIGN.md.")
 NOT_CLAIMED = {}
-CLAIMED = {
- "C14": {
-  "text": "Theorems (Coq, all measurement sequences): Builder.Add puts each measurement in exactly one cell whose sample is exactly the measurements projected there; cells exist iff populated; residue keys per cell are exact and the vary-warning names exactly the differing fields; rows/columns/tables are the present keys in sort order with the first column as baseline; the benchmark-set warning is raised iff row sets differ. The model is tied to /repo by running cmd/benchstat's pipeline in process on generated file sets x flag grids, observing benchtab.Tables, and comparing with model and specification; per-cell statistics are compared with direct benchmath calls; the real binary's csv/text must equal the rendering of those tables.",
-  "design_ref": "DESIGN.md 7.14",
-  "note": "trusted: Coq kernel, extraction+OCaml, Go harness (replicates main.go's 40-line wiring, checked against the binary's bytes); statistics themselves are C11-C13's subject; key order is C09's",
- },
- "C15": {
-  "text": "Partial by nature. Proved (Coq): the tables are independent of Go map enumeration order for every reachable builder state, sorted key sequences are arrangement-independent, permuting input lines only permutes each cell's values, slot-disjoint tasks commute under every schedule. Runtime part (data races, real interleavings) observed: byte-identical text and csv across repeated runs and GOMAXPROCS 1,2,3,16, a -race build on a subset, repeated in-process runs, and permuted benchmark lines leaving every cell's sample and summary unchanged.",
-  "design_ref": "DESIGN.md 7.15",
-  "note": "data-race freedom and sub-task interleavings cannot be exhibited by a pure model; the race detector sees only executed interleavings",
-  "technique": "Coq theorems (map-order independence, commuting tasks) + differential runs of the real binary incl. race detector",
- },
- "C05": {
-  "text": "Theorems (Coq, all byte strings and configurations): base ++ parts = name, the parts have exactly the documented shape and that decomposition is unique, Base() = Parts() base, and each filter/projection key means what the property says. The models are tied to /repo by running Name.Parts/Base, single-field projections and literal filters on exhaustive short names and random names and comparing with the extracted model.",
-  "design_ref": "DESIGN.md 7.5",
-  "note": "trusted: Coq kernel, extraction+OCaml, Go harness; hand-written model tied to the code by differential run only",
- },
-}
+CLAIMED = props.claimed()
